@@ -15,7 +15,7 @@ META = dict(
           "dump_tables() + all array properties) after every call, with every numpy array found in any result probed "
           "for writeability/aliasing. A case is distinct by (table class, operation sequence, final rows) resp. the "
           "tree sequence's rows; a table case is non-trivial with >= 5 completed operations, a ts case with >= 1 edge."),
-    REQUIRED=["verify", "refusal", "row-object", "keep_rows-idmap", "iteration", "eq", "fingerprint", "call",
+    REQUIRED=["verify", "refusal", "row-object", "setitem-foreign-schema", "keep_rows-idmap", "iteration", "eq", "fingerprint", "call",
               "array-readonly", "array-writeable-probe", "tables-mutation-probe", "tree-probe", "variant-probe"],
     ASSUMPTIONS=ASSUME_COMMON + [
         "arrays are probed through the numpy interface only; writes through ctypes or the buffer protocol of "
